@@ -108,6 +108,9 @@ def make_files():
     for size in (131000, 140000, 200000, 400000):
         recipe['LC%d' % (size // 1000)] = [zoo.big_comment('A', 83 + size // 100000, size)]
     recipe['LCC'] = [zoo.link('A', 95, '3'), zoo.big_comment('A', 96, 140000)]
+    # multiplexed links whose whole audio sits in one page behind a foreign page (defect repaired by fix b18ba1d: seekable mode delivered nothing)
+    recipe['XD'] = [zoo.multiplexed('D', 97, 'natural', fserial=9700)]
+    recipe['XA'] = [zoo.link('D', 98, 'natural'), zoo.multiplexed('A', 99, 'natural', fserial=9701)]
     out = {}
     for name, links in recipe.items():
         data = b''.join(open(p, 'rb').read() for p, _ in links)
@@ -346,7 +349,7 @@ def run(tier):
     phase('bigpage', 'bigpage', cl, 'b', 2000)
 
     # ---- phase 1: every uniform cap x path x file (default request length)
-    big = ['F1', 'F2', 'S2']
+    big = ['F1', 'F2', 'S2', 'XD', 'XA']
     c1 = [R.case(f, p, 'f', 'c4096', c, []) for f in big for p in PATHS for c in CAPS_ALL]
     c1 += [R.case(f, p, 'i', 'b4096', c, []) for f in big for p in ('s', 'n') for c in (CAPS_ALL if thorough else CAPS_SMALL[1:])]
     # file > CHUNKSIZE: page hunting after the backward hop of the seekable open under fragmentation
